@@ -21,6 +21,7 @@ import (
 	"verif/ev"
 	"verif/mcx"
 	"verif/vrt"
+	"verif/worlds/track"
 )
 
 // transport abstracts the two connection worlds.
@@ -30,6 +31,7 @@ type transport interface {
 	Build(blockwise bool)
 	Acquire(ctx context.Context) *pool.Message
 	Do(req *pool.Message) (*pool.Message, error)
+	Release(m *pool.Message)
 	NewOuts() []message.Message
 	Inject(m message.Message)
 	PeerMID() int32
@@ -109,13 +111,18 @@ func scenario(c cfg, mk func() transport) *mcx.Scenario {
 						cl := callers[i]
 						cl.err = err
 						if err == nil {
+							track.Hold(resp, "response returned from Do")
+							vrt.Point("application inspects the response")
 							cl.gotTok = fmt.Sprintf("%x", []byte(resp.Token()))
 							cl.gotCode = resp.Code()
 							if resp.Body() != nil {
 								b, _ := resp.ReadBody()
 								cl.gotBody = string(b)
 							}
+							track.Unhold(resp)
+							tr.Release(resp)
 						}
+						tr.Release(req)
 						cl.done = true
 					})
 				}
